@@ -125,3 +125,36 @@ Proof.
   - rewrite csumn_re. apply sumn_ext. intros. csimp. ring.
   - rewrite csumn_im. simpl. rewrite (sumn_ext n _ (fun _ => 0)). apply sumn_0. intros; csimp; ring.
 Qed.
+
+(* quadratic form of a sum of rank-one terms  A_rs = sum_k z_k alpha_k(r) beta_k(s) *)
+Lemma qform_rank1_sum N m (z : nat -> Cx) (al be : nat -> nat -> Cx) (A : fmat) x :
+  feq N A (fun r s => csumn' m (fun k => cmul' (z k) (cmul' (al k r) (be k s)))) ->
+  qform N A x = csumn' m (fun k => cmul' (z k)
+     (cmul' (csumn' N (fun r => cmul' (cconj' (x r)) (al k r))) (csumn' N (fun s => cmul' (be k s) (x s))))).
+Proof.
+  intros HA. rewrite (qform_ext N A _ x HA). unfold qform.
+  (* push everything under the k-sum *)
+  rewrite (csumn_ext N _ (fun r => csumn' m (fun k => cmul' (z k)
+     (cmul' (cmul' (cconj' (x r)) (al k r)) (csumn' N (fun s => cmul' (be k s) (x s))))))).
+  2:{ intros r _.
+      rewrite (csumn_ext N _ (fun s => csumn' m (fun k =>
+           cmul' (cmul' (z k) (cmul' (cconj' (x r)) (al k r))) (cmul' (be k s) (x s))))).
+      2:{ intros s _. rewrite <- csumn_mul_l, <- csumn_mul_r. apply csumn_ext. intros k _. ring. }
+      rewrite csumn_swap. apply csumn_ext. intros k _. rewrite csumn_mul_l. ring. }
+  rewrite csumn_swap. apply csumn_ext. intros k _.
+  rewrite csumn_mul_l. f_equal. rewrite <- csumn_mul_r. reflexivity.
+Qed.
+
+Lemma cmul_conj_self (v : Cx) : cmul' v (cconj' v) = (cabs2 RO v, 0).
+Proof. cring. Qed.
+Lemma cmul_conj_self' (v : Cx) : cmul' (cconj' v) v = (cabs2 RO v, 0).
+Proof. cring. Qed.
+
+(* sum of real-weighted squared moduli *)
+Lemma csumn_weighted_abs2 m (w : nat -> R) (v : nat -> Cx) :
+  csumn' m (fun k => cmul' (w k, 0) (cmul' (v k) (cconj' (v k)))) = (sumn' m (fun k => w k * cabs2 RO (v k)), 0).
+Proof.
+  apply c_eq.
+  - rewrite csumn_re. simpl. apply sumn_ext. intros. csimp. ring.
+  - rewrite csumn_im. simpl. rewrite (sumn_ext m _ (fun _ => 0)). apply sumn_0. intros. csimp. ring.
+Qed.
